@@ -1,5 +1,5 @@
 From Coq Require Extraction.
 From Coq Require Import ExtrOcamlBasic.
 From Verif.C12 Require Import Model Gen_StdSig.
-Extraction "c12_ext.ml" std_sig s_int64 sig_extend type_of stmt_type find_common cast_dist issub compat
+Extraction "c12_ext.ml" std_sig s_int64 sig_extend stmt_type_clean type_of find_common cast_dist issub compat
   impl_castable is_poly parent_dist.
